@@ -114,7 +114,7 @@ pub assume_specification[ std::alloc::Layout::size ](l: &std::alloc::Layout) -> 
 /// address / length of a `NonNull<[u8]>`
 pub uninterp spec fn nonnull_slice_addr(p: std::ptr::NonNull<[u8]>) -> int;
 pub uninterp spec fn nonnull_slice_len(p: std::ptr::NonNull<[u8]>) -> nat;
-pub uninterp spec fn nonnull_addr(p: std::ptr::NonNull<u8>) -> int;
+pub uninterp spec fn nonnull_addr<T: std::marker::PointeeSized>(p: std::ptr::NonNull<T>) -> int;
 
 // ---- raw pointers: UNSAFE code, its meaning is assumed ---------------------------------------------------
 /// stride of `<*mut T>::add` (= size_of::<T>()); assumed 1 for u8 and c_void (c_void is a 1-byte repr(u8) enum)
@@ -154,6 +154,8 @@ pub assume_specification<'a, T>[ std::slice::from_raw_parts_mut ](p: *mut T, len
 ;
 
 pub assume_specification<T: std::marker::PointeeSized>[ std::ptr::NonNull::<T>::as_ptr ](p: std::ptr::NonNull<T>) -> (r: *mut T)
+    ensures
+        r as int == nonnull_addr(p),
 ;
 
 } // verus!
